@@ -137,6 +137,15 @@ check('C10',
       'Virtual time advances only when nothing is runnable or through stall deviations (amount tracked and added to the lateness allowance).',
       'DESIGN.md C10')
 
+check('C12',
+      'exhaustive enumeration of fault assignments (answer / silent per device request, bounded number of silent requests) on the real retry/wrapper/VM stack over the simulated LAN',
+      'For each of ~60 menu scripts (every command kind on every target kind, unknown names, every capability mismatch, a loop and a routine over a silent light) '
+      'and 3 discovery variants, EVERY assignment with <=6 (thorough 9) silent requests is executed: the script runs off its end (markers), devices with no silent request see '
+      'exactly the fault-free requests and arguments, no logical request is tried more than 3 times, exhausted ones are logged; discover() returns a bool, never raises, leaves the '
+      'directory unchanged on failure, and a script run afterwards does not abort.',
+      'Faults = WorkflowException from the simulated device before it acts; broadcast frames outside the fault alphabet; logical request = attempts of one (light, op) within one VM instruction.',
+      'DESIGN.md C12')
+
 NOT_YET = 'check not built yet in this session (design in DESIGN.md); will be claimed when its command exists'
 
 
